@@ -85,9 +85,11 @@ func rolesOf(w *World) *Roles {
 	}
 	// its panic path: the deferred closure
 	forEachIns(r.task, func(ins ssa.Instruction) {
-		if d, ok := ins.(*ssa.Defer); ok {
-			if f := makeClosureFn(d.Call.Value); f != nil && r.taskPanic == nil {
+		if d, ok := ins.(*ssa.Defer); ok && r.taskPanic == nil {
+			if f := makeClosureFn(d.Call.Value); f != nil {
 				r.taskPanic = f
+			} else if f := d.Call.StaticCallee(); f != nil && f.Blocks != nil && isModulePkg(f.Pkg.Pkg) {
+				r.taskPanic = f // the panic path written as a named function / method
 			}
 		}
 	})
@@ -96,10 +98,8 @@ func rolesOf(w *World) *Roles {
 	}
 	// finalizer: the CloseCallback closure that calls FDOperator.Free
 	for _, fn := range w.Funcs {
-		if fn.Parent() == nil {
-			continue
-		}
-		if namedSigIs(fn, "Connection") && callsFn(fn, r.opFree) {
+		// a closure, or a named function/method used as the callback: CloseCallback-shaped and frees the slot
+		if namedSigIs(fn, "Connection") && callsFn(fn, r.opFree) && !strings.HasSuffix(fn.Name(), "$bound") {
 			r.finalizer = fn
 		}
 	}
